@@ -186,6 +186,22 @@ def gen(tier, rng):
         out.append(linegen.line_case(rng, req, None, policy=conforming_policy(rng), stream="hostile"))
     for raw in RAW:
         out.append(raw_case(rng, raw))
+    # valid JSON nested deeper and deeper: far below CPython's recursion limit (whatever copies, logs or walks
+    # the request must cope), and every depth around the limit, with a log handler attached as in production
+    for d in range(100, 1400, 50):
+        line = b'{"command":"version","version":5,"x":' + b"[" * d + b"]" * d + b"}\n"
+        c = raw_case(rng, line, "deep-json")
+        c.input["mode"] = "v5"
+        c.input["drop_member"] = "x"
+        out.append(c)
+    for d in range(1400, 1560, (1 if tier == "thorough" else 2)):
+        line = b'{"command":"version","version":5,"x":' + b"[" * d + b"]" * d + b"}\n"
+        c = raw_case(rng, line, "deep-json-boundary")
+        c.input["mode"] = "v5"
+        c.input["log_handler"] = True
+        c.input["deep_boundary"] = True
+        c.input["drop_member"] = "x"
+        out.append(c)
     for i in range(60 if tier == "quick" else 3000):
         n = rng.randrange(0, 60)
         out.append(raw_case(rng, g.rand_bytes(rng, n) + b"\n", "random-bytes"))
